@@ -59,6 +59,42 @@ pub fn tag_len_grid(out: &mut Vec<String>) {
     }
 }
 
+/// text that grows when decoded: long runs of bytes that are not UTF-8 (each becomes a 3-byte U+FFFD), for every
+/// string-carrying syntax, through the decoder and as a message (the result is displayed and re-encoded)
+pub fn inflating(out: &mut Vec<String>) {
+    for n in [21840usize, 21846, 32768, 65535] {
+        for tag in [0x30u8, 0x41, 0x42, 0x44, 0x45, 0x46, 0x47, 0x48, 0x49, 0x4a, 0x2f] {
+            out.push(format!("decode_value {:02x} {}", tag, hex(&vec![0xffu8; n])));
+        }
+        for tag in [0x35u8, 0x36] {
+            // language empty, text of n - 4 invalid bytes; and both halves invalid
+            let mut b = vec![0u8, 0];
+            let t = n - 4;
+            b.extend_from_slice(&(t as u16).to_be_bytes());
+            b.extend(std::iter::repeat(0xffu8).take(t));
+            out.push(format!("decode_value {:02x} {}", tag, hex(&b)));
+            let half = (n - 4) / 2;
+            let mut b2 = (half as u16).to_be_bytes().to_vec();
+            b2.extend(std::iter::repeat(0xc3u8).take(half));
+            b2.extend_from_slice(&(half as u16).to_be_bytes());
+            b2.extend(std::iter::repeat(0xe2u8).take(half));
+            out.push(format!("decode_value {:02x} {}", tag, hex(&b2)));
+            let mut m = vec![1u8, tag, 0, 1, b'a'];
+            m.extend_from_slice(&(b.len() as u16).to_be_bytes());
+            m.extend_from_slice(&b);
+            m.push(3);
+            out.push(with_header(&m));
+        }
+        // a long non-UTF-8 attribute name and member name
+        let name = vec![0xfeu8; n.min(65535)];
+        let mut m = vec![1u8, 0x21];
+        m.extend_from_slice(&(name.len() as u16).to_be_bytes());
+        m.extend_from_slice(&name);
+        m.extend_from_slice(&[0, 4, 0, 0, 0, 1, 3]);
+        out.push(with_header(&m));
+    }
+}
+
 /// every inner length pair of the with-language syntaxes, against every total body length
 pub fn lang_pairs(out: &mut Vec<String>) {
     let lens: Vec<u16> = (0..=6).chain([0xfffe, 0xffff, 0x8000, 0x100]).collect();
